@@ -82,6 +82,13 @@ func childMain(raw string) {
 		}
 		if m.Method == "initialize" {
 			out.Write(append([]byte(`{"jsonrpc":"2.0","id":`+string(m.ID)+`,"result":`+initResult+`}`), '\n'))
+			if sc.Need == 0 && sc.Fault == "exit" {
+				// the boundary before any request: wait for the initialized notification, then leave
+				var n childReq
+				dec.Decode(&n)
+				mark("ready")
+				os.Exit(0)
+			}
 			continue
 		}
 		if sc.Fault == "none" {
